@@ -49,14 +49,27 @@ type verifFaultyUpstream struct {
 	max      int
 	failed   bool // some attempt failed
 	okCount  int
+	batchOK  map[string]int // request body -> successful attempts
 }
 
 func (u *verifFaultyUpstream) RoundTrip(req *http.Request) (*http.Response, error) {
 	u.attempts++
 	verifAssume(u.attempts <= u.max)
+	key := ""
+	if req.GetBody != nil {
+		if rc, err := req.GetBody(); err == nil {
+			b, _ := io.ReadAll(rc)
+			key = string(b)
+		}
+	}
+	if u.batchOK == nil {
+		u.batchOK = map[string]int{}
+	}
+	u.batchOK[key] += 0
 	switch nondetIntIn(0, 2) {
 	case 0:
 		u.okCount++
+		u.batchOK[key]++
 		return &http.Response{StatusCode: 200, Body: io.NopCloser(bytes.NewReader(nil)), Header: http.Header{}}, nil
 	case 1:
 		u.failed = true
@@ -98,5 +111,16 @@ func VerifC16_OTLP() {
 	if up.okCount == 0 {
 		verifAssert(len(got) > 0, "otlp: an error is reported when no attempt succeeded")
 		verifReach("all-failed")
+	}
+	// per batch (a batch is identified by its request body): a batch that was attempted and
+	// never accepted means data was dropped, the callback must say so even if another batch
+	// was accepted
+	for _, n := range up.batchOK {
+		if n == 0 {
+			verifAssert(len(got) > 0, "otlp: an error is reported when some batch was never accepted")
+			if up.okCount > 0 {
+				verifReach("partial-failure")
+			}
+		}
 	}
 }
